@@ -42,11 +42,11 @@ package types
 //@   ensures[C14.attrs_untouched] (forall j int :: (0 <= j && j < len(attrs)) ==> (!attrIsHash(_type, attrs[j].Key) && !attrIsIndex(_type, attrs[j].Key))) ==> (tx.Hash == old(tx.Hash) && tx.EthTxIndex == old(tx.EthTxIndex))
 //@   panics[C14.attrs_never_panics] never
 //@ loop 1
-//@   invariant -1 <= rangeindex && rangeindex < len(attrs)
-//@   invariant tx.Failed == (old(tx.Failed) || (exists j int :: 0 <= j && j <= rangeindex && attrIsVmError(_type, attrs[j].Key)))
-//@   invariant forall j int :: {attrBadIndex(_type, attrs[j].Key, attrs[j].Value)} (0 <= j && j <= rangeindex) ==> !attrBadIndex(_type, attrs[j].Key, attrs[j].Value)
-//@   invariant (forall j int :: (0 <= j && j <= rangeindex) ==> (!attrIsHash(_type, attrs[j].Key) && !attrIsIndex(_type, attrs[j].Key))) ==> (tx.Hash == old(tx.Hash) && tx.EthTxIndex == old(tx.EthTxIndex))
-//@   invariant forall p *ParsedTx :: p != tx ==> (p.Hash == old(p.Hash) && p.EthTxIndex == old(p.EthTxIndex) && p.Failed == old(p.Failed))
+//@   invariant[C14.attrs_loop_bounds] -1 <= rangeindex && rangeindex < len(attrs)
+//@   invariant[C14.attrs_loop_failed] tx.Failed == (old(tx.Failed) || (exists j int :: 0 <= j && j <= rangeindex && attrIsVmError(_type, attrs[j].Key)))
+//@   invariant[C14.attrs_loop_no_bad_index] forall j int :: {attrBadIndex(_type, attrs[j].Key, attrs[j].Value)} (0 <= j && j <= rangeindex) ==> !attrBadIndex(_type, attrs[j].Key, attrs[j].Value)
+//@   invariant[C14.attrs_loop_untouched] (forall j int :: (0 <= j && j <= rangeindex) ==> (!attrIsHash(_type, attrs[j].Key) && !attrIsIndex(_type, attrs[j].Key))) ==> (tx.Hash == old(tx.Hash) && tx.EthTxIndex == old(tx.EthTxIndex))
+//@   invariant[C14.attrs_loop_frame] forall p *ParsedTx :: p != tx ==> (p.Hash == old(p.Hash) && p.EthTxIndex == old(p.EthTxIndex) && p.Failed == old(p.Failed))
 
 // ParseTxResult: nil iff the result carries neither an ethereum_tx nor a tx_receipt event; the three Failed rules
 // (non-zero code with a transaction given; no ethereum_tx event; no tx_receipt event) and, conversely, Failed only by one
@@ -65,12 +65,12 @@ package types
 //@   ensures[C14.parse_error_is_nil] err != nil ==> p == nil
 //@   panics[C14.parse_never_panics] never
 //@ loop 1
-//@   invariant -1 <= rangeindex && rangeindex < len(res.Events)
-//@   invariant foundEventEthTx == (exists j int :: 0 <= j && j <= rangeindex && evIsEthTx(res.Events[j].Type))
-//@   invariant foundEventReceipt == (exists j int :: 0 <= j && j <= rangeindex && evIsReceipt(res.Events[j].Type))
-//@   invariant (p == nil) == (!foundEventEthTx && !foundEventReceipt)
-//@   invariant p != nil ==> fresh(p)
-//@   invariant (p != nil && p.Failed) ==> (exists j int, k int :: 0 <= j && j <= rangeindex && evIsReceipt(res.Events[j].Type) && 0 <= k && k < len(res.Events[j].Attributes) && res.Events[j].Attributes[k].Key == evmtypes.AttributeKeyReceiptVmError)
-//@   invariant (p != nil && (exists j int, k int :: 0 <= j && j <= rangeindex && evIsReceipt(res.Events[j].Type) && 0 <= k && k < len(res.Events[j].Attributes) && res.Events[j].Attributes[k].Key == evmtypes.AttributeKeyReceiptVmError)) ==> p.Failed
-//@   invariant forall j int, k int :: {attrBadIndex(res.Events[j].Type, res.Events[j].Attributes[k].Key, res.Events[j].Attributes[k].Value)} (0 <= j && j <= rangeindex && 0 <= k && k < len(res.Events[j].Attributes)) ==> !attrBadIndex(res.Events[j].Type, res.Events[j].Attributes[k].Key, res.Events[j].Attributes[k].Value)
-//@   invariant forall q *ParsedTx :: !fresh(q) ==> (q.Hash == old(q.Hash) && q.EthTxIndex == old(q.EthTxIndex) && q.Failed == old(q.Failed))
+//@   invariant[C14.parse_loop_bounds] -1 <= rangeindex && rangeindex < len(res.Events)
+//@   invariant[C14.parse_loop_found_eth] foundEventEthTx == (exists j int :: 0 <= j && j <= rangeindex && evIsEthTx(res.Events[j].Type))
+//@   invariant[C14.parse_loop_found_receipt] foundEventReceipt == (exists j int :: 0 <= j && j <= rangeindex && evIsReceipt(res.Events[j].Type))
+//@   invariant[C14.parse_loop_nil_iff] (p == nil) == (!foundEventEthTx && !foundEventReceipt)
+//@   invariant[C14.parse_loop_fresh] p != nil ==> fresh(p)
+//@   invariant[C14.parse_loop_failed_only_vm_error] (p != nil && p.Failed) ==> (exists j int, k int :: 0 <= j && j <= rangeindex && evIsReceipt(res.Events[j].Type) && 0 <= k && k < len(res.Events[j].Attributes) && res.Events[j].Attributes[k].Key == evmtypes.AttributeKeyReceiptVmError)
+//@   invariant[C14.parse_loop_vm_error_fails] (p != nil && (exists j int, k int :: 0 <= j && j <= rangeindex && evIsReceipt(res.Events[j].Type) && 0 <= k && k < len(res.Events[j].Attributes) && res.Events[j].Attributes[k].Key == evmtypes.AttributeKeyReceiptVmError)) ==> p.Failed
+//@   invariant[C14.parse_loop_no_bad_index] forall j int, k int :: {attrBadIndex(res.Events[j].Type, res.Events[j].Attributes[k].Key, res.Events[j].Attributes[k].Value)} (0 <= j && j <= rangeindex && 0 <= k && k < len(res.Events[j].Attributes)) ==> !attrBadIndex(res.Events[j].Type, res.Events[j].Attributes[k].Key, res.Events[j].Attributes[k].Value)
+//@   invariant[C14.parse_loop_frame] forall q *ParsedTx :: !fresh(q) ==> (q.Hash == old(q.Hash) && q.EthTxIndex == old(q.EthTxIndex) && q.Failed == old(q.Failed))
